@@ -197,6 +197,8 @@ class ProgGen(object):
         f = self.f
         k = r.random()
         pin = f.get("p_inside", 0.45)
+        if f.get("hv") and r.random() < 0.25:
+            return self.hostile_value_step()
         if f.get("boost") and r.random() < f["boost"]:
             k = r.choice([0.955, 0.965])     # G28 mid-program / G92 X/Y/Z
         if k < 0.28:
@@ -204,7 +206,7 @@ class ProgGen(object):
                 self.unretract()
             inside = (r.random() < pin) if self.regs else None
             x, y = self.pt(inside)
-            d = math.hypot(x - self.x, y - self.y)
+            d = min(80.0, math.hypot(x - self.x, y - self.y))
             z = None
             if f.get("zmoves", True) and r.random() < 0.12:
                 z = round(max(0.1, self.z + r.choice([-0.4, 0.2, 0.2, 0.6, 2.0])), 2)
@@ -283,6 +285,63 @@ class ProgGen(object):
             self.frame_lost = True
         elif depth < 5:
             self.step(depth + 1)
+
+    def hostile_value_step(self):
+        """Steps that drive tracked values to very small / very large magnitudes (C07)."""
+        r = self.r
+        k = r.random()
+        if k < 0.25:
+            # relative round-off chain: ends (almost) where it started, leaving a residue like 5.55e-17
+            was_abs = self.abs
+            if was_abs:
+                self.abs = False
+                self.emit("G91")
+            ax = r.choice("XYZ")
+            chain = r.choice([["0.1", "0.2", "-0.3"], ["0.7", "0.1", "-0.8"], ["1.1", "2.2", "-3.3"], ["0.3", "-0.1", "-0.2"]])
+            if ax in "XY":
+                # start the chain from the axis origin so that the residue itself becomes the coordinate
+                cur = getattr(self, ax.lower())
+                w = fmt(-cur / self.unit, 6)
+                setattr(self, ax.lower(), cur + float(w) * self.unit)
+                self.emit("G1 %s%s" % (ax, w))
+            for w in chain:
+                setattr(self, ax.lower(), getattr(self, ax.lower()) + float(w) * self.unit)
+                self.emit("G1 %s%s" % (ax, w))
+            if was_abs and r.random() < 0.5:
+                self.abs = True
+                self.emit("G90")
+            self.tags.add("roundoff-chain")
+        elif k < 0.45:
+            self.emit("G1 F%s" % r.choice(["0.001", "0.00001", "1000000000000000000", "123456789012345678", "99999.99999",
+                                           "12345678901234567890", "0.000051"]))
+            self.tags.add("hostile-feed")
+        elif k < 0.6:
+            if self.is_retracted():
+                self.unretract()
+            # tiny extrusion on the E grid is impossible; use an explicit tiny absolute step and resynchronise the file view
+            de = r.choice([0.00001, 0.000001, 0.00003])
+            s = fmt((self.e + de) / self.unit, 9)
+            self.e = float(s) * self.unit
+            self.emit("G1 E%s" % s)
+            self.f["g92e"] = True
+            self.tags.add("tiny-extrusion")
+            # bring the file's E back onto the grid so that later cycles stay matched
+            w, self.e = self.eword(self.e)
+            self.emit("G92 " + w)
+        elif k < 0.75:
+            # far away destination (outside every region), then back
+            big = r.choice([1e6, 1e9, 1e12, 123456789.123])
+            ax = r.choice("XY")
+            self.move(**{ax.lower(): big})
+            self.tags.add("large-coordinate")
+        elif k < 0.9:
+            self.emit(r.choice(["M204 S120000000000000000", "M204 P0.00001 T0.000002", "M205 X0.00000001", "M73 P0.00001",
+                                "M204 S1234567.125", "M205 X8 Y", "M204 S", "M73 P100 R0"]))
+            self.tags.add("hostile-merge")
+        else:
+            if not self.retracted:
+                self.unit = 25.4 if self.unit == 1.0 else 1.0
+                self.emit("G20" if self.unit != 1.0 else "G21")
 
     def arc(self):
         r = self.r
